@@ -178,7 +178,14 @@ impl Check for C16 {
                 },
                 _ => true,
             });
-            let ledger = format!("2000/01/01 funding\n    {}    {} {}\n    Equity:Opening\n\n{}", case.account, crate::checks::import_common::q_text(case.opening), case.primary, imp.text);
+            // the user's main ledger declares its commodities (with the precision the statement uses),
+            // which is what lets a computed, non-terminating conversion amount balance
+            let mut decls = String::new();
+            for c in ["CHF", "USD", "JPY", "EUR", "GBP"] {
+                let dp = if c == "JPY" { 0 } else { 2 };
+                decls.push_str(&format!("commodity {}\n    format 1,000{}{} {}\n\n", c, if dp > 0 { "." } else { "" }, "0".repeat(dp), c));
+            }
+            let ledger = format!("{}2000/01/01 funding\n    {}    {} {}\n    Equity:Opening\n\n{}", decls, case.account, crate::checks::import_common::q_text(case.opening), case.primary, imp.text);
             let files = vec![(ops::ROOT.to_string(), ledger.clone())];
             rec.op("report::process (funding + import output)", &ledger);
             let Some(r) = guarded(rec, || run_code(&files, ops::ROOT)) else { return };
